@@ -1038,6 +1038,19 @@ Proof.
   split; [exact G6 | exact G7].
 Qed.
 
+(* every instruction of the returned program has a trace entry (not only the ones that can fail) *)
+Theorem compile_trace_complete M o B :
+  compile M o = COk B ->
+  program_in_range M o = true ->
+  N.of_nat (length (p_bytecode B)) < 2147483648 ->
+  trace_complete B.
+Proof.
+  intros H Hr Hlen.
+  destruct (compile_wellformed_partial_strong M o B H Hr Hlen) as (is & _ & Hd & Hwf).
+  destruct Hwf as (_ & _ & _ & _ & _ & _ & Hc).
+  intros is' p i Hd' Hin _. rewrite Hd in Hd'. injection Hd' as <-. apply (Hc p i Hin).
+Qed.
+
 (* the two side conditions of an earlier version of the theorem hold for every output *)
 Corollary compile_few_globals M o B :
   compile M o = COk B -> program_in_range M o = true -> program_utf8 M o = true ->
